@@ -103,6 +103,44 @@ def run_case(case):
     return out
 
 
+def _pipelines():
+    """small conforming pipelines whose first request is chunked, with 0-2 trailer fields, followed by a request that must be found
+    at exactly the byte after the trailer section"""
+    firsts = []
+    for body in ("hello world", "x" * 8150):
+        for trailers in ("", "X-T: v\r\n", "X-A: 1\r\nX-B: 2\r\n"):
+            for lastline in ("0\r\n", "0;a=b\r\n"):
+                chunks = "%x\r\n%s\r\n" % (len(body), body) if len(body) < 100 else \
+                    "".join("%x\r\n%s\r\n" % (len(body[i:i + 4000]), body[i:i + 4000]) for i in range(0, len(body), 4000))
+                firsts.append("POST /one HTTP/1.1\r\nHost: a\r\nTransfer-Encoding: chunked\r\n\r\n" + chunks + lastline + trailers + "\r\n")
+    followers = ["GET /two HTTP/1.1\r\nHost: a\r\n\r\n",
+                 "POST /two HTTP/1.1\r\nHost: a\r\nContent-Length: 26\r\n\r\nGET /smuggled HTTP/1.1\r\n\r\nGET /three HTTP/1.1\r\nHost: a\r\n\r\n"]
+    return [f + g for f in firsts for g in followers]
+
+
+def extra_cases(tier, seed, shard, nshards):
+    n = 0
+    for s in _pipelines():
+        end_first = s.index("/two") - 5
+        start = s.index("\r\n0") if len(s) < 2000 else s.index("\r\n0\r\n") if "\r\n0\r\n" in s else s.index("\r\n0;")
+        # every single read boundary from the last-chunk line to a little past the start of the follower, then a second boundary too
+        for cut in range(max(1, start - 2), min(len(s), end_first + 12)):
+            for consume in (0, 1):
+                n += 1
+                if n % nshards == shard:
+                    yield {"stream": s, "cfg": 0, "proxy": 0, "cut": cut, "consume": consume, "cut_mode": "one"}
+        for k in range(5):
+            for mode in ("after-last-chunk", "every-64", "after-every-crlf"):
+                n += 1
+                if n % nshards == shard:
+                    yield {"stream": s, "cfg": 0, "proxy": 0, "cut": k * 13 + 1, "consume": k % 2, "cut_mode": mode}
+
+
+EXHAUSTIVE_NOTE = ("chunked-with-trailers pipelines: %d conforming streams (body 11 B / 8150 B x 0-2 trailer fields x last-chunk extension x "
+                   "2 followers) x every single read boundary from the last-chunk line to 12 bytes into the follower x 2 consumption modes, "
+                   "plus the multi-cut modes" % len(_pipelines()))
+
+
 def _head(r):
     return [r["method"], r["uri"], list(r["version"]), [list(h) for h in r["headers"]]]
 
